@@ -63,6 +63,8 @@ func c13Policies(ctx *core.Ctx) [][]spec.Op {
 			spec.Op{K: spec.KSchemeCustom, Names: []string{"http"}, Check: "host-example"},
 			spec.Op{K: spec.KSchemeCustom, Names: []string{"http"}, Check: "host-cdn"},
 			spec.Op{K: spec.KSchemes, Names: []string{"https", "mailto"}},
+			spec.Op{K: spec.KSchemesMatching, Re: `^(x-[a-z0-9]+|web\+[a-z]+|s?ftp)$`},
+			spec.Op{K: spec.KSchemesMatching, Re: `^git\+`, Fresh: true},
 			spec.Op{K: spec.KRewrite, Check: "proxy"},
 			spec.Op{K: spec.KSwitch, Names: []string{spec.SwNoFollow}, B: true},
 			spec.Op{K: spec.KSwitch, Names: []string{spec.SwTargetBlank}, B: true},
@@ -120,6 +122,31 @@ func runC13(ctx *core.Ctx) {
 			ctx.Inconclusive(fmt.Sprintf("stress child for policy %d died (exit %d, signal %q) without a result:\n%s", i, res.Exit, res.Signal, core.Clip(res.Stderr, 2000)))
 		}
 	}
+	// cold processes: several per policy, each a fresh process whose first sanitiser calls are concurrent
+	for _, i := range idxs {
+		if ctx.Replaying {
+			break
+		}
+		for k := 0; k < ctx.N(3, 12); k++ {
+			res := core.RunChild("c13cold", []string{fmt.Sprint(ctx.Seed), ctx.Tier, fmt.Sprint(i), fmt.Sprint(k)}, 0, 600)
+			cs := &core.Case{Ctx: ctx, Stream: "cold-process", Index: i*1000 + k}
+			merged := false
+			if j := bytes.LastIndex(res.Stdout, []byte("\nVMON-CHILD-STATE ")); j >= 0 {
+				if err := ctx.MergeState(bytes.TrimSpace(res.Stdout[j+len("\nVMON-CHILD-STATE "):])); err == nil {
+					merged = true
+				}
+			}
+			switch {
+			case res.TimedOut:
+				ctx.Inconclusive(fmt.Sprintf("cold-process child for policy %d hit the wall-clock watchdog", i))
+			case strings.Contains(res.Stderr, "fatal error: concurrent map"):
+				cs.Violate("C13:fatal:concurrent-map-access", "the Go runtime aborted the cold-process run: concurrent map access in the sanitiser\n"+core.Clip(res.Stderr, 3000),
+					map[string]interface{}{"policy": spec.Describe(pols[i]), "ops": pols[i], "stderr": core.Clip(res.Stderr, 8000)})
+			case !merged:
+				ctx.Inconclusive(fmt.Sprintf("cold-process child for policy %d died (exit %d, signal %q) without a result:\n%s", i, res.Exit, res.Signal, core.Clip(res.Stderr, 2000)))
+			}
+		}
+	}
 	if v, ok := ctx.ExtraGet("in_flight_high_water_mark").(float64); ok {
 		highWater = int64(v)
 	}
@@ -164,6 +191,104 @@ func runC13(ctx *core.Ctx) {
 	ctx.Floor("concurrent_calls", 100000)
 	ctx.Floor("sequential_repeat_calls", 10000)
 	ctx.Floor("cold_start_concurrent_calls", 5000)
+	ctx.Floor("cold_processes", 20)
+}
+
+// c13Inputs: the input set for one policy.
+func c13Inputs(r *rand.Rand, env *Env, idx, nIn int) []string {
+	inputs := make([]string, nIn)
+	pool := gen.CSSTokenPool()
+	for i := range inputs {
+		inputs[i] = env.HostileInput(r)
+		if idx >= 3 && idx <= 5 && i%3 == 0 { // elements matched by several patterns at once, values accepted by one rule only
+			el := gen.Pick(r, []string{"my-x", "my-y", "x-foo", "my-"})
+			inputs[i] = fmt.Sprintf(`<%s id="%s" title="%s" class="%s">t</%s>`, el, gen.Pick(r, []string{"abc", "42", "#abc", "_AB", "left", "x-a1", "zz9", "NO"}), gen.Pick(r, []string{"abc", "_XY", "1"}), gen.Pick(r, []string{"7", "x"}), el)
+		}
+		if idx == 6 && i%2 == 0 { // the all-handlers policy: style-heavy inputs over all documented properties
+			var b strings.Builder
+			for k := 0; k < 1+r.Intn(5); k++ {
+				fmt.Fprintf(&b, "%s: %s %s; ", gen.CSSProperties[r.Intn(len(gen.CSSProperties))], pool[r.Intn(len(pool))], pool[r.Intn(len(pool))])
+			}
+			inputs[i] = `<span style="` + gen.CanonEscape(b.String()) + `">x</span><a href="http://example.org/?a=1" rel="x">y</a>`
+		}
+		if i%5 == 1 {
+			// URL-heavy: every URL position, schemes that are listed, schemes only a scheme pattern accepts
+			// (a new one in almost every input), data URIs with white space inside, relative references
+			u := func() string {
+				switch r.Intn(6) {
+				case 0:
+					return fmt.Sprintf("x-%c%c%d:payload/%d", 'a'+rune(r.Intn(26)), 'a'+rune(r.Intn(26)), r.Intn(10), i)
+				case 1:
+					return gen.Pick(r, []string{"web+https://example.org/", "git+ssh://example.org/r.git", "sftp://example.org/f", "ftp://example.org/f", "x-app:open"})
+				case 2:
+					return gen.Pick(r, []string{"data:image/png;base64,iVBO Rw0K\nGgo=", "data:image/gif;base64,R0lG\r\nODlhAQABAAAAACw=", "data:image/png;base64,\tiVBORw0KGgo=", " data:image/jpeg;base64,/9j/ 4AAQ"})
+				case 3:
+					return gen.CanonicalURL(r, gen.Pick(r, []string{"http", "https", "mailto", ""}))
+				}
+				return gen.HostileURL(r)
+			}
+			inputs[i] = fmt.Sprintf(`<a href="%s" rel="x">a</a><img src="%s" alt="i"><blockquote cite="%s">q</blockquote><video poster="%s" src="%s"></video><iframe src="%s"></iframe><q cite="%s">q</q>`,
+				gen.CanonEscape(u()), gen.CanonEscape(u()), gen.CanonEscape(u()), gen.CanonEscape(u()), gen.CanonEscape(u()), gen.CanonEscape(u()), gen.CanonEscape(u()))
+		}
+		if len(inputs[i]) > 1500 {
+			inputs[i] = inputs[i][:1500]
+		}
+	}
+	return inputs
+}
+
+// c13Cold runs in a process that has not sanitised anything yet: the very first calls of the process
+// are made by all goroutines at once (different inputs per goroutine, every input on two goroutines),
+// so that package-level state the sanitiser initialises on first use is first touched under
+// contention. The sequential baseline is computed AFTERWARDS and compared.
+func c13Cold(ctx *core.Ctx, only, k int) {
+	pols := c13Policies(ctx)
+	const G = 64
+	nIn := ctx.N(120, 300)
+	cs := &core.Case{Ctx: ctx, Stream: "cold-process", Index: only*1000 + k, R: ctx.StreamRand(fmt.Sprintf("cold-process-%d-%d", only, k))}
+	env := NewEnv(pols[only]) // builds the policy, sanitises nothing
+	inputs := c13Inputs(cs.R, env, only, nIn)
+	pol := spec.Build(env.Ops)
+	other := spec.Build(spec.UGCOps())
+	res := make([]string, 2*nIn)
+	resOther := make([]string, 2*nIn)
+	start := make(chan struct{})
+	var wg sync.WaitGroup
+	for g := 0; g < G; g++ {
+		wg.Add(1)
+		go func(g int) {
+			defer wg.Done()
+			<-start
+			for j := g; j < 2*nIn; j += G {
+				i := (j*7 + k) % nIn
+				res[j] = SanitizeVia(pol, inputs[i], j)
+				if j%3 == 0 {
+					resOther[j] = other.Sanitize(inputs[i])
+				}
+			}
+		}(g)
+	}
+	close(start)
+	wg.Wait()
+	cs.EvalN(2 * nIn)
+	for j := range res {
+		i := (j*7 + k) % nIn
+		want := pol.Sanitize(inputs[i])
+		if res[j] != want {
+			cs.Violate("C13:cold-process-differs:"+firstDiffToken(res[j], want), fmt.Sprintf("one of the first (concurrent) calls of the process returned %q, the sequential result afterwards is %q; input=%q", core.Clip(res[j], 200), core.Clip(want, 200), core.Clip(inputs[i], 200)),
+				map[string]interface{}{"policy": spec.Describe(env.Ops), "ops": env.Ops, "input": core.Show(inputs[i]), "got": core.Show(res[j]), "sequential_result": core.Show(want)})
+			break
+		}
+		if j%3 == 0 {
+			if wo := other.Sanitize(inputs[i]); resOther[j] != wo {
+				cs.Violate("C13:cold-process-differs:second-policy", fmt.Sprintf("a second policy in the first (concurrent) calls of the process returned %q, sequentially %q; input=%q", core.Clip(resOther[j], 200), core.Clip(wo, 200), core.Clip(inputs[i], 200)),
+					map[string]interface{}{"policy": "UGCPolicy", "input": core.Show(inputs[i])})
+				break
+			}
+		}
+	}
+	cs.Count("cold_process_first_calls", 2*nIn)
+	cs.Count("cold_processes", 1)
 }
 
 // c13Stress runs the stress for one policy (in the child process).
@@ -180,25 +305,7 @@ func c13Stress(ctx *core.Ctx, only int) {
 		}
 		env := NewEnv(pols[cs.Index])
 		r := cs.R
-		inputs := make([]string, nIn)
-		pool := gen.CSSTokenPool()
-		for i := range inputs {
-			inputs[i] = env.HostileInput(r)
-			if cs.Index >= 3 && cs.Index <= 5 && i%3 == 0 { // elements matched by several patterns at once, values accepted by one rule only
-				el := gen.Pick(r, []string{"my-x", "my-y", "x-foo", "my-"})
-				inputs[i] = fmt.Sprintf(`<%s id="%s" title="%s" class="%s">t</%s>`, el, gen.Pick(r, []string{"abc", "42", "#abc", "_AB", "left", "x-a1", "zz9", "NO"}), gen.Pick(r, []string{"abc", "_XY", "1"}), gen.Pick(r, []string{"7", "x"}), el)
-			}
-			if cs.Index == 6 && i%2 == 0 { // the all-handlers policy: style-heavy inputs over all documented properties
-				var b strings.Builder
-				for k := 0; k < 1+r.Intn(5); k++ {
-					fmt.Fprintf(&b, "%s: %s %s; ", gen.CSSProperties[r.Intn(len(gen.CSSProperties))], pool[r.Intn(len(pool))], pool[r.Intn(len(pool))])
-				}
-				inputs[i] = `<span style="` + gen.CanonEscape(b.String()) + `">x</span><a href="http://example.org/?a=1" rel="x">y</a>`
-			}
-			if len(inputs[i]) > 1500 {
-				inputs[i] = inputs[i][:1500]
-			}
-		}
+		inputs := c13Inputs(r, env, cs.Index, nIn)
 		fp0 := Fingerprint(env.Pol)
 		base := make([]string, nIn)
 		for i, in := range inputs {
@@ -339,6 +446,21 @@ func init() {
 		idx, _ := strconv.Atoi(args[2])
 		ctx := core.NewCtx("C13", args[1], seed)
 		c13Stress(ctx, idx)
+		fmt.Printf("\nVMON-CHILD-STATE %s\n", ctx.ExportState())
+		return 0
+	}
+}
+
+func init() {
+	childModes["c13cold"] = func(args []string) int {
+		if len(args) != 4 {
+			return core.ExitInconclusive
+		}
+		seed, _ := strconv.ParseInt(args[0], 10, 64)
+		idx, _ := strconv.Atoi(args[2])
+		k, _ := strconv.Atoi(args[3])
+		ctx := core.NewCtx("C13", args[1], seed)
+		c13Cold(ctx, idx, k)
 		fmt.Printf("\nVMON-CHILD-STATE %s\n", ctx.ExportState())
 		return 0
 	}
